@@ -136,6 +136,79 @@ Proof.
   - eapply IH; eauto.
 Qed.
 
+(* ---------- C03: first in, first out between the event channel and update ---------- *)
+(* The pipeline of a core: the events already applied followed by those still in the channel.  Every
+   step of the model only ever APPENDS to it - the executor puts emitted events at the end of the channel,
+   the event loop moves the head of the channel to the end of the log - so no event overtakes another,
+   none is lost and none is applied twice between the moment it reaches the core's channel and update. *)
+Definition pipeline (k : core) : list event := k_log k ++ k_events k.
+
+Lemma xrun_task_pipeline : forall fuel q k k', xrun_task FUEL fuel q k = Some k' -> extends (pipeline k) (pipeline k').
+Proof.
+  induction fuel as [|f IH]; intros q k k' E; [discriminate|]. cbn [xrun_task] in E.
+  destruct (xget q (k_slab k)); [|some_eq E; apply extends_refl].
+  destruct (poll_next FUEL n (WExec q) (k_H k)) as [[r H1]|]; [|discriminate].
+  destruct r as [| |eff|ev].
+  - some_eq E; apply extends_refl.
+  - some_eq E; apply extends_refl.
+  - apply IH in E; exact E.
+  - apply IH in E. eapply extends_trans; [|exact E]. unfold pipeline; cbn [k_log k_events].
+    exists [ev]. rewrite app_assoc. reflexivity.
+Qed.
+Lemma xspawn_all_pipeline : forall fuel k k', xspawn_all FUEL fuel k = Some k' -> extends (pipeline k) (pipeline k').
+Proof.
+  induction fuel as [|f IH]; intros k k' E; [discriminate|]. cbn [xspawn_all] in E.
+  destruct (k_spawn k); [some_eq E; apply extends_refl|].
+  destruct (xinsert n (k_slab k)) as [q sl].
+  match type of E with match ?x with _ => _ end = _ => destruct x as [k1|] eqn:E1; [|discriminate] end.
+  apply xrun_task_pipeline in E1. apply IH in E. eapply extends_trans; [exact E1 | exact E].
+Qed.
+Lemma xready_all_pipeline : forall fuel k k', xready_all FUEL fuel k = Some k' -> extends (pipeline k) (pipeline k').
+Proof.
+  induction fuel as [|f IH]; intros k k' E; [discriminate|]. cbn [xready_all] in E.
+  destruct (xready (k_H k)); [some_eq E; apply extends_refl|].
+  match type of E with match ?x with _ => _ end = _ => destruct x as [k1|] eqn:E1; [|discriminate] end.
+  apply xrun_task_pipeline in E1. apply IH in E. eapply extends_trans; [exact E1 | exact E].
+Qed.
+Lemma run_all_pipeline : forall fuel k k', run_all FUEL fuel k = Some k' -> extends (pipeline k) (pipeline k').
+Proof.
+  induction fuel as [|f IH]; intros k k' E; [discriminate|]. cbn [run_all] in E.
+  assert (Hstep : forall k1 k2, xspawn_all FUEL FUEL k = Some k1 -> xready_all FUEL FUEL k1 = Some k2 ->
+                  run_all FUEL f k2 = Some k' -> extends (pipeline k) (pipeline k')).
+  { intros k1 k2 E1 E2 E3. apply xspawn_all_pipeline in E1. apply xready_all_pipeline in E2. apply IH in E3.
+    eapply extends_trans; [exact E1 | eapply extends_trans; [exact E2 | exact E3]]. }
+  destruct (k_spawn k) eqn:ES; destruct (xready (k_H k)) eqn:ER.
+  - some_eq E; apply extends_refl.
+  - destruct (xspawn_all FUEL FUEL k) as [k1|] eqn:E1; [|discriminate].
+    destruct (xready_all FUEL FUEL k1) as [k2|] eqn:E2; [|discriminate]. eapply Hstep; eauto.
+  - destruct (xspawn_all FUEL FUEL k) as [k1|] eqn:E1; [|discriminate].
+    destruct (xready_all FUEL FUEL k1) as [k2|] eqn:E2; [|discriminate]. eapply Hstep; eauto.
+  - destruct (xspawn_all FUEL FUEL k) as [k1|] eqn:E1; [|discriminate].
+    destruct (xready_all FUEL FUEL k1) as [k2|] eqn:E2; [|discriminate]. eapply Hstep; eauto.
+Qed.
+Lemma spawn_cmd_pipeline c en k : pipeline (spawn_cmd c en k) = pipeline k.
+Proof. unfold spawn_cmd, pipeline. destruct (new_cmd _ _ _ _ _ _). reflexivity. Qed.
+Theorem process_pipeline : forall fuel hs k k', process FUEL fuel hs k = Some k' -> extends (pipeline k) (pipeline k').
+Proof.
+  induction fuel as [|f IH]; intros hs k k' E; [discriminate|]. cbn [process] in E.
+  destruct (run_all FUEL FUEL k) as [k1|] eqn:E1; [|discriminate].
+  apply run_all_pipeline in E1.
+  destruct (k_events k1) as [|e rest] eqn:EV.
+  - some_eq E. exact E1.
+  - apply IH in E. rewrite spawn_cmd_pipeline in E.
+    eapply extends_trans; [exact E1|]. eapply extends_trans; [|exact E].
+    unfold pipeline; cbn [k_log k_events]. rewrite EV. exists []. rewrite app_nil_r, <- app_assoc. reflexivity.
+Qed.
+(* when the call returns nothing is pending, so what was applied during the call is exactly what was
+   pending before it followed by what was emitted meanwhile, in channel order *)
+Corollary process_applies_in_channel_order : forall fuel hs k k', process FUEL fuel hs k = Some k' ->
+  exists emitted, k_log k' = k_log k ++ k_events k ++ emitted.
+Proof.
+  intros fuel hs k k' E. pose proof (process_idle fuel hs k k' E) as (_ & _ & EV).
+  apply process_pipeline in E. destruct E as [l El]. unfold pipeline in El. rewrite EV, app_nil_r in El.
+  exists l. rewrite El, app_assoc. reflexivity.
+Qed.
+
 Lemma extends_prefix a b : extends a b -> is_prefix a b = true.
 Proof. intros [l ->]. apply is_prefix_app. Qed.
 Lemma skipn_app_len {A} (a l : list A) : skipn (length a) (a ++ l) = l.
